@@ -406,6 +406,12 @@ impl<'a> Sim<'a> {
         let mut c: BTreeMap<String, J> = BTreeMap::new();
         if v <= 10 {
             c.insert("creator".into(), J::Str(creator.clone()));
+        } else if self.t.chance(1, 4) {
+            // v11: the field is gone from the specification; a stale one (another user, or not even
+            // a string) left behind by an old client means nothing
+            let stale = if self.t.chance(1, 4) { J::Int(5) } else { J::Str(self.all_users[self.t.index(self.all_users.len())].clone()) };
+            c.insert("creator".into(), stale);
+            self.bump("act.v11-create-with-stale-creator-field");
         }
         c.insert("room_version".into(), J::Str(v.to_string()));
         if self.t.chance(1, 8) {
@@ -571,8 +577,18 @@ impl<'a> Sim<'a> {
                     let pk = refmodel::rb64::encode_std(&self.idserver.public());
                     let other_pk = refmodel::rb64::encode_std(&revent::SignKey::from_seed([7u8; 32], "0").public());
                     let mut c = vec![("display_name", J::s("a…@e…")), ("key_validity_url", J::s("https://id.example/_matrix/identity/v2/pubkey/isvalid"))];
-                    match self.t.below(4) {
+                    match self.t.below(6) {
                         0 => c.push(("public_key", J::Str(pk.clone()))),
+                        4 => {
+                            // the signing key is the top-level one only; the list holds other keys
+                            c.push(("public_key", J::Str(pk.clone())));
+                            c.push(("public_keys", J::Arr(vec![o(vec![("public_key", J::Str(other_pk))])])));
+                        }
+                        5 => {
+                            // an empty list next to the top-level key
+                            c.push(("public_key", J::Str(pk.clone())));
+                            c.push(("public_keys", J::Arr(vec![])));
+                        }
                         1 => {
                             c.push(("public_key", J::Str(pk.clone())));
                             c.push(("public_keys", J::Arr(vec![o(vec![("public_key", J::Str(pk)), ("key_validity_url", J::s("https://id.example/valid"))])])));
